@@ -63,6 +63,7 @@ class Firmware:
         self.reply_hook = None     # callable(fw, idx, cmd) -> list[str] | None
         self.lat_hook = None       # callable(idx, text) -> extra latency in seconds
         self.rxpartial = b""
+        self.eol = cfg.get("dev_eol", "\n")      # Grbl terminates its lines with CR LF
         self.resend_fmt = cfg.get("resend_fmt", "Resend: {n}")
         self.ok_style = cfg.get("ok_style", "plain")
         self.rx_hook = None        # callable(fw, idx, text) at arrival
@@ -113,7 +114,7 @@ class Firmware:
         ack = low.startswith(ACK_PREFIXES)
         err = low.startswith(ERR_PREFIXES)
         s = self.k.ev("dev->host", text, answers)
-        got = self.port.deliver((text + "\n").encode("utf-8", "surrogateescape"))
+        got = self.port.deliver((text + self.eol).encode("utf-8", "surrogateescape"))
         self.emitted.append({"seq": s, "t": self.k.now, "text": text, "answers": answers,
                              "ack": ack, "err": err, "final": final, "dropped": not got})
 
